@@ -14,21 +14,27 @@ structure FullSt where
   deleted : List String := []     -- requests the storage has deleted (CreateTokenResponse consumes the request)
   deriving Inhabited
 
+def roOracle (l : Line) : AzRoOracle :=
+  { ParseToken := fun _ =>
+      if has l "ro.iss" then
+        .ok ("payload", { Issuer := str l "ro.iss", ClientID := str l "ro.cid", ResponseType := str l "ro.rt",
+                          Audience := if bool l "ro.audok" then [""] else ["https://other.example"],
+                          RedirectURI := str l "ro.uri", State := str l "ro.state", ResponseMode := str l "ro.mode" })
+      else .error "ErrInvalidRequest",
+    CheckSignature := fun _ _ ro _ _ => if bool l "ro.sig" then .ok ro else .error "signature" }
+
 /-- twins of the sub-validations the stream exercises (the theorems quantify over ALL such functions) -/
 def deps (l : Line) : AuthDeps :=
   { ValidateAuthReqPrompt := fun ps m => if ps.contains "none" && ps.length > 1 then .error "ErrInvalidRequest" else .ok m,
     ValidateAuthReqScopes := fun _ s => if s.isEmpty then .error "ErrInvalidRequest" else .ok s,
     ValidateAuthReqIDTokenHint := fun h _ => if h == "" then .ok "" else .error "ErrLoginRequired",
-    -- twin of ParseRequestObject + CopyRequestObjectToAuthRequest for the request objects the stream mints
-    ParseRequestObject := fun a _ _ =>
-      if bool l "ro.ok" then
-        .ok { a with RedirectURI := if str l "ro.uri" != "" then str l "ro.uri" else a.RedirectURI,
-                     State := if str l "ro.state" != "" then str l "ro.state" else a.State,
-                     ResponseMode := if str l "ro.mode" != "" then str l "ro.mode" else a.ResponseMode,
-                     RequestParam := "" }
-      else .error "ErrInvalidRequest",
+    -- REGENERATED ParseRequestObject + CopyRequestObjectToAuthRequest on the claims the harness put into the request object;
+    -- the oracles: ParseToken = those claims, CheckSignature = "signed with the key registered for the issuer"
+    ParseRequestObject := fun a stg iss => GenAz.ParseRequestObject 0 (roOracle l) a stg iss,
     CreateTokenResponse := fun _ _ _ _ _ _ => if has l "f.token" then .error (str l "f.token") else .ok { kind := "token" },
-    CreateAuthRequestCode := fun _ _ _ => if has l "f.savecode" then .error (str l "f.savecode") else .ok "code" }
+    CreateAuthRequestCode := fun _ _ _ => if has l "f.savecode" then .error (str l "f.savecode") else .ok "code",
+    -- html/template: the action attribute it renders for the request's redirect URI is what the harness's OWN template rendered
+    FormTemplate := { Execute := fun ps => .ok ⟨if has l "t.act" then str l "t.act" else ps.RedirectURI⟩ } }
 
 def faults (l : Line) (deleted : List String := []) : Authz.Faults :=
   { getClient := fun _ => opt l "f.getclient",
@@ -66,7 +72,7 @@ def showObs (fs : FullSt) (o : UriOracle) (l : Line) (client expected : String) 
       "redirect:" ++ esc base ++ ":" ++ str l "o.where" ++ ":" ++ esc (str l "o.kind")
   | "formpost" =>
     let a := str l "o.action"
-    "formpost:" ++ esc (if _root_.C03.destOf o a == _root_.C03.destOf o expected then expected else "?" ++ a) ++ ":-"
+    "formpost:" ++ esc (if _root_.C03.destOf o a == _root_.C03.destOf o expected then expected else a) ++ ":-"
   | x => x
 
 def authReqOf (l : Line) : AuthRequestData :=
@@ -87,7 +93,10 @@ def step (fs : FullSt) (l : Line) : FullSt × String :=
       let newID := match s with
         | .login id => id
         | _ => "?"
-      let (st', ws) := Authz.step now o fs.cfg fs.st (.authorize fs.router parsed (deps l) (faults l) newID)
+      -- the raw request: `r.ParseForm()` fails for a malformed query (`parse=err`), the schema decoder is the oracle
+      let r : AzHttpReq := { ParseForm := if str l "parse" == "err" then .error "parse" else .ok () }
+      let dec : AzDecoder := { Decode := fun _ => parsed }
+      let (st', ws) := Authz.step now o fs.cfg fs.st (.authorize fs.router r dec (deps l) (faults l) newID)
       ({ fs with st := st' }, showWrites ws, showObs fs o l (str l "client") (str l "uri"))
     | "login" =>
       let (st', _) := Authz.step now (parseOracle l) fs.cfg fs.st (.login (str l "id"))
